@@ -300,13 +300,18 @@ func genMerge(seed uint64, tier string) *Plan {
 	prog := TaskPlan{Name: "cursor", Phase: 1}
 	n := r.Range(1, 10)
 	for i := 0; i < n; i++ {
-		switch x := r.Intn(10); {
+		switch x := r.Intn(12); {
 		case x < 3:
 			prog.Ops = append(prog.Ops, Op{K: "seekfirst"})
 		case x < 6:
 			prog.Ops = append(prog.Ops, Op{K: "seek", A: []int{r.Range(-1, 40)}})
-		default:
+		case x < 10:
 			prog.Ops = append(prog.Ops, Op{K: "next", A: []int{r.Range(1, 6)}})
+		case x < 11:
+			// the scan owner deletes the item one of the inputs stands on and refreshes the inputs
+			prog.Ops = append(prog.Ops, Op{K: "delcur", A: []int{r.Intn(5)}})
+		default:
+			prog.Ops = append(prog.Ops, Op{K: "refresh"})
 		}
 	}
 	p.Tasks = append(p.Tasks, prog)
@@ -395,6 +400,36 @@ func runMerge(env *Env) {
 				if !check("Next") {
 					return
 				}
+			}
+		case "refresh":
+			for _, it := range iters {
+				it.Refresh()
+			}
+			trace += " Refresh(inputs)"
+		case "delcur":
+			// delete the item input i stands on; what the merge iterator yields for the rest
+			// of this scan is not specified, a later SeekFirst/Seek must reposition it over
+			// the remaining contents
+			if len(iters) == 0 {
+				break
+			}
+			i := op.Arg(0) % len(iters)
+			if !iters[i].Valid() {
+				break
+			}
+			k := intOf(iters[i].Get())
+			if lists[i].Delete(iters[i].Get(), cmpIntRaw, lists[i].MakeBuf(), &lists[i].Stats) {
+				for j, x := range all {
+					if x == k {
+						all = append(all[:j], all[j+1:]...)
+						break
+					}
+				}
+				for _, it := range iters {
+					it.Refresh()
+				}
+				pos = -1
+				trace += fmt.Sprintf(" Delete(%d under input %d)+Refresh(inputs)", k, i)
 			}
 		}
 	}
